@@ -26,3 +26,6 @@ Definition pin_6 : forall sch arrays recs,
     lenN recs < pow256 4 -> field_count sch arrays < pow256 4 -> N.of_nat (lay_size (lay sch)) < pow256 4 ->
     lenN (fst (build_block recs)) < pow256 4 ->
     dbc_read sch (dbc_write sch arrays recs) = Some recs := C17_dbc_roundtrip.
+Definition pin_7 : forall t key,
+    (forall i, In (key, i) t -> exists j, lookup_sorted (sort_keys t) key = Some j /\ In (key, j) t) /\
+    (forall j, lookup_sorted (sort_keys t) key = Some j -> In (key, j) t) := C17_built_table_lookup.
